@@ -115,4 +115,13 @@ theorem C19_cx_dagre_child_outside : ¬ encloses1px ⟨244, 307, 432, 126⟩ ⟨
 theorem C19_cx_dagre_horizontal_child_above : ¬ encloses1px ⟨20, 46, 114, 272⟩ ⟨50, 40, 54, 66⟩ := by
   unfold encloses1px encloses px Box.right Box.bottom; norm_num
 
+/-- ELK, `n1: {label: "the quick brown fox jumps"; label.near: outside-right-center; n4; n5: {width: 325}}`:
+    `n1.n4` starts 27 px left of its container -/
+theorem C19_cx_elk_child_outside : ¬ encloses1px ⟨12, 12, 354, 166⟩ ⟨-15, 62, 63, 66⟩ := by
+  unfold encloses1px encloses px Box.right Box.bottom; norm_num
+
+/-- dagre with positioned labels: container `n2` is widened over its neighbour `n4` -/
+theorem C19_cx_dagre_spacing_overlap : ¬ disjoint1px ⟨112, 4, 491, 329⟩ ⟨455, 50, 63, 66⟩ := by
+  unfold disjoint1px disjointTol px Box.right Box.bottom; norm_num
+
 end D2V.Lay
